@@ -48,6 +48,9 @@ def make_inputs(n, sizes, S, clustered):
                 nm = "mut_%d_%d" % (d, j)
                 rows.append({"mutation_id": nm, "cluster_id": 100 + d})
                 mutname[nm] = (d, j)
+        # a cluster whose only mutation was dropped by the loader (so it has no data point); its id is not the largest
+        rows.append({"mutation_id": "ghost_1", "cluster_id": 50})
+        mutname["ghost_1"] = ("ghost", 1)
         clusters = pd.DataFrame(rows)
     else:
         names = ["mut_%d_1" % d for d in range(n)]
@@ -68,6 +71,9 @@ def judge_table(table, newick, rec, mutname, samples, tree, label, clustered):
         if not clustered and j != 1:
             continue
         want[((d, j), r["sample"])] = frozenset(r["clone"])
+    if clustered:
+        for si in range(1, len(samples) + 1):
+            want[(("ghost", 1), si)] = frozenset()      # an input mutation without a data point is reported with clone id -1
     got = {}
     clone_id_of_row = {}
     for _, row in table.iterrows():
@@ -220,7 +226,8 @@ def check_state(rec, n, sizes, S, clustered, workdir, idx, files):
         os.makedirs(d, exist_ok=True)
         try:
             tp = os.path.join(d, "trace.pkl.gz")
-            outputs.write_trace_file(tp, [(0, [(key, -1.5, idx), (key, -1.0, idx + 1)])], data, samples, clusters=clusters)
+            # two chains, chain 1 finished first (dictionary insertion order as run() produces it)
+            outputs.write_trace_file(tp, [(1, [(key, -1.5, idx)]), (0, [(key, -1.0, idx + 1)])], data, samples, clusters=clusters)
             sink = io.StringIO()
             for cmd in ("map", "consensus", "topology"):
                 try:
